@@ -231,7 +231,7 @@ func cmdCheck(args []string) int {
 			fmt.Fprintln(os.Stderr, "BUILD-PROBLEM (race):", err)
 			return 2
 		}
-		k := len(specs) / 4
+		k := len(specs) / 6
 		if k < 8 {
 			k = min(8, len(specs))
 		}
